@@ -17,6 +17,12 @@ CHECKS = {
     "C12": dict(engine="X", technique=X, design="§4 C12",
                 text="Bounded symbolic model checking of parse_google/parse_numpy/parse_sphinx: (a) whole text symbolic up to n characters over the characters the parsers branch on, (b) K lines of vocabulary bodies with every indentation 0..4 and all parser options symbolic, (c) text without section syntax comes back as one text section. Totality, well-formed sections, termination (fuel on docstring.lines indexing), docstring/parent unmodified.",
                 note="Trusted: CrossHair models + z3; regex matching is done by CPython's re on the realised subject (CrossHair's symbolic regex model was measured wrong); docstring_warning/logging stubbed; Docstring value assigned directly (inspect.cleandoc not under test)."),
+    "C02": dict(engine="X", technique=X, design="§4 C02",
+                text="Bounded symbolic model checking of get_parameters/Visitor.handle_function on hand-built ast.arguments over the full cross product of segment lengths (<=2 quick, <=3 thorough), default counts, kw-default masks, variadics, annotation masks, with the identity of every default expression symbolic; Parameters container vs a list model with symbolic keys/indices; overload/property/setter/deleter sequences with symbolic names. Reference rule validated against exec + inspect.signature and griffe.visit on the rendered def every run.",
+                note="Trusted: CrossHair models + z3; hand-built AST equals compile() output only validated on the concrete grid and on every counterexample."),
+    "C07": dict(engine="X", technique=X, design="§4 C07",
+                text="Bounded symbolic model checking: c3linear_merge vs a reference C3 merge on 3 symbolic integer lists (<=3 items); Class.mro() for every base assignment of 3 (quick) / 4 (thorough) classes with <=2 bases each (unknown bases, duplicates, self-inheritance, cycles, a base reached through an alias) against CPython's own type(); inherited_members/all_members/cls[name] vs getattr along the real __mro__ for every member placement on four hierarchy shapes.",
+                note="Trusted: CrossHair models + z3. The CPython oracle (type()) is called inside the symbolic run on realised values."),
     "C06": dict(engine="X", technique=X, design="§4 C06",
                 text="Bounded symbolic model checking: every import graph of 3 aliases (+ up to 2 wildcard imports) whose targets are solver-chosen dotted strings over loaded/unloaded modules and defined/undefined names is run through the real resolve_aliases; 'confirmed' means CrossHair exhausted the path tree. Not a proof: graphs with more aliases/modules are outside the bound.",
                 note="Trusted: CrossHair's str/dict models + z3; ModuleFinder pointed at a non-existent path; logging stubbed."),
